@@ -170,6 +170,14 @@ fn history(p: &'static Profile, tape: &[u8]) -> (Outcome, String) {
             let mut hung: BTreeSet<C> = BTreeSet::new();
             for _ in 0..k {
                 match next_action(&mut t, &w, p.weights) {
+                    // a Shutdown message ends the connection just like a hang-up: the connection
+                    // stops forwarding replies to its own earlier requests
+                    Some(Action::Inject(c, Message::Shutdown(_))) => {
+                        if !hung.contains(&c) && !batch.iter().any(|(x, _)| *x == c) {
+                            hung.insert(c);
+                            batch.push((c, Some(Message::Shutdown(Shutdown))));
+                        }
+                    }
                     Some(Action::Inject(c, m)) if !hung.contains(&c) => batch.push((c, Some(m))),
                     // a connection that hangs up contributes nothing else to the batch: replies to its
                     // own earlier requests could not be observed any more
@@ -337,6 +345,53 @@ fn plan(quick: u32, t: Tier) -> Vec<ClassPlan> {
 }
 
 // ---------------------------------------------------------------------------------------------
+// C12, class "mixed": every kind of bus activity between connections of different versions; the
+// lock-step comparison (reference model + "nothing newer than the negotiated version") decides
+
+static W_C12: &[(Op, u32)] = &[
+    (Op::CreateObject, 8),
+    (Op::DestroyObject, 3),
+    (Op::CreateService, 6),
+    (Op::CreateService2, 6),
+    (Op::DestroyService, 3),
+    (Op::Call, 14),
+    (Op::Reply, 6),
+    (Op::Abort, 4),
+    (Op::SubEvent, 5),
+    (Op::UnsubEvent, 2),
+    (Op::SubAll, 3),
+    (Op::UnsubAll, 1),
+    (Op::SubSvc, 3),
+    (Op::UnsubSvc, 1),
+    (Op::Emit, 5),
+    (Op::QueryVersion, 1),
+    (Op::QueryInfo, 2),
+    (Op::CreateChannel, 5),
+    (Op::ClaimEnd, 4),
+    (Op::CloseEnd, 2),
+    (Op::SendItem, 4),
+    (Op::AddCapacity, 1),
+    (Op::CreateListener, 2),
+    (Op::AddFilter, 2),
+    (Op::StartListener, 2),
+    (Op::HangUp, 6),
+    (Op::ShutdownMsg, 2),
+    (Op::Connect, 5),
+    (Op::Sync, 1),
+];
+
+pub static P_C12: Profile = Profile {
+    id: "C12",
+    weights: W_C12,
+    observer: false,
+    setup: 2,
+    batch: 24,
+    drop_task: 0,
+    max_ops: 50,
+    nontrivial: |n, _| n.iter().any(|x| x.starts_with("version:") || x.starts_with("gated:")),
+};
+
+// ---------------------------------------------------------------------------------------------
 // C03
 
 static W_C03: &[(Op, u32)] = &[
@@ -349,6 +404,15 @@ static W_C03: &[(Op, u32)] = &[
     (Op::QueryInfo, 5),
     (Op::SubEvent, 5),
     (Op::SubSvc, 3),
+    // every other request that addresses a service by cookie, so that what a connection did
+    // with a service while it was live (subscribed to all events, ...) is part of the state in
+    // which the cookie is queried again after the service is gone
+    (Op::SubAll, 4),
+    (Op::UnsubEvent, 2),
+    (Op::UnsubAll, 1),
+    (Op::UnsubSvc, 1),
+    (Op::Emit, 2),
+    (Op::Abort, 1),
     (Op::Call, 6),
     (Op::Reply, 2),
     (Op::HangUp, 4),
